@@ -183,7 +183,11 @@ fn mk_zone_parts(a: &Value) -> Result<(Vec<Transition>, Vec<LocalTimeType>, Vec<
     for l in getv(a, "lp").as_array().expect("lp") {
         lp.push(LeapSecond::new(w_to_i64(&l[0]), l[1].as_i64().expect("corr") as i32));
     }
-    let rule = mk_rule(getv(a, "rule")).map_err(|e| json!({"arg": e}))?;
+    // a rule that cannot be constructed means the zone cannot be constructed either: that refusal is the result
+    let rule = mk_rule(getv(a, "rule")).map_err(|e| match e.get("err") {
+        Some(k) => json!({"err": k, "ref": k}),
+        None => json!({"arg": e}),
+    })?;
     Ok((tr, ty, lp, rule))
 }
 
@@ -439,7 +443,10 @@ fn exec_inner(op: &str, a: &Value, st: &mut State) -> Value {
         "zone" => {
             let (tr, ty, lp, rule) = match mk_zone_parts(a) {
                 Ok(p) => p,
-                Err(e) => return e,
+                Err(e) => {
+                    st.zone = None;
+                    return e;
+                }
             };
             // both constructors are always called so that "decide identically" is observable in every event
             let r_ref = TimeZoneRef::new(&tr, &ty, &lp, &rule).map(|_| ());
